@@ -20,8 +20,10 @@ def write_ws(ws, key, remote):
     if remote:
         toml += '[cache]\nbackend = "s3"\n[cache.s3]\nbucket = "bkt"\nprefix = "pfx"\n'
     open(os.path.join(ws, "grog.toml"), "w").write(toml)
-    cmd = 'echo S >> "$GROG_WORKSPACE_ROOT/../trace"; echo payload > t.out' + ("" if key == "k0" else " # edited")
-    json.dump({"targets": [{"name": "t", "command": cmd, "outputs": ["t.out"]}]}, open(os.path.join(ws, "pkg", "BUILD.json"), "w"))
+    gcmd = 'echo "S g" >> "$GROG_WORKSPACE_ROOT/../trace"; echo payload > g.out'
+    ccmd = 'echo "S c" >> "$GROG_WORKSPACE_ROOT/../trace"; cp g.out c.out' + ("" if key == "k0" else " # edited")
+    json.dump({"targets": [{"name": "g", "command": gcmd, "outputs": ["g.out"]},
+                           {"name": "c", "command": ccmd, "dependencies": [":g"], "outputs": ["c.out"]}]}, open(os.path.join(ws, "pkg", "BUILD.json"), "w"))
 
 
 def store_items(cachedir, keymap):
@@ -75,9 +77,10 @@ def replay_one(grog, hbin, hist, base):
         elif act["kind"] == "build":
             m = act["m"]
             write_ws(ws, key, act["remote"])
-            out = os.path.join(ws, "pkg", "t.out")
-            if os.path.exists(out):
-                os.remove(out)            # every build starts from a checkout without outputs
+            out = os.path.join(ws, "pkg", "c.out")
+            for o in ("g.out", "c.out"):
+                if os.path.exists(os.path.join(ws, "pkg", o)):
+                    os.remove(os.path.join(ws, "pkg", o))            # every build starts from a checkout without outputs
             tr = os.path.join(base, "trace")
             open(tr, "w").close()
             hook = os.path.join(base, "hook.ndjson")
@@ -97,10 +100,10 @@ def replay_one(grog, hbin, hist, base):
                 except ValueError:
                     continue
                 if e.get("k") == "t.lookup":
-                    keymap[key] = e["key"]
-            executed = "S" in open(tr).read().split()
+                    keymap["g0" if e["t"].endswith(":g") else key] = e["key"]
+            executed = sorted({l.split()[1] for l in open(tr).read().splitlines() if l.startswith("S ")})
             ok = p.returncode == 0
-            if executed != act["executed"]:
+            if executed != sorted(act["executed"]):
                 mism.append(dict(step=i, kind="executed-differs", real=executed, model=act["executed"], act=act, tail=(p.stdout + p.stderr)[-300:]))
             if ok != act["ok"]:
                 mism.append(dict(step=i, kind="status-differs", real_ok=ok, model_ok=act["ok"], act=act, tail=(p.stdout + p.stderr)[-300:]))
